@@ -344,6 +344,15 @@ def tensor_impl_models(root):
         "Tensor[uint2 fortran order]": lambda: ir.Tensor(np.asfortranarray((np.arange(12, dtype=np.uint8) % 4).reshape(3, 4).astype(ml_dtypes.uint2)), dtype=ir.DataType.UINT2, name="q2f"),
         "Tensor[float transposed view]": lambda: ir.Tensor(arr.copy().T, name="ft"),
     }
+    # attributes given to the convenience constructor as protos (converted on the way in)
+    tpa = gp.tensor(gp.TP.FLOAT, [2], "float_data", name="from_proto_a")
+    tpb = gp.tensor(gp.TP.INT64, [1], "int64_data", name="from_proto_b")
+    x = ir.Value(name="x", type=ir.TensorType(ir.DataType.FLOAT), shape=ir.Shape([2, 3]))
+    holder = ir.node("Consts", [], {"one": tpa, "many": [tpa, tpb]}, domain="custom", name="holder")
+    holder.outputs[0].name = "cv"
+    ident = ir.Node("", "Identity", [x], name="i")
+    ident.outputs[0].name = "y"
+    yield "attributes_from_tensor_protos", ir.Model(ir.Graph([x], [ident.outputs[0], holder.outputs[0]], nodes=[holder, ident], name="g", opset_imports={"": 20, "custom": 1}), ir_version=10)
     for nm, mk in impls.items():
         for as_attr in (False, True):
             t = mk()
